@@ -14,6 +14,7 @@ import time
 import traceback
 
 from .kernel import Streams, Ctx, Violation, Budget, Discard, SimCrash, DrawCap
+from . import entropy
 
 VERIF = os.path.dirname(os.path.dirname(os.path.abspath(__file__)))
 
@@ -118,6 +119,8 @@ def run_one(prop, tier, verif_seed, job):
         streams = Streams.from_run_seed(prop.ID, plan["run_seed"])
         ctx = Ctx(streams)
         _seed_tempfile_names(streams)
+        entropy.install()
+        entropy.arm()
         ctx.open_keys = set(e["key"] for e in load_known(prop.ID) if e.get("status") == "open")
         ctx.tier = tier
         res["outcome"] = "PASS"
@@ -153,6 +156,8 @@ def run_one(prop, tier, verif_seed, job):
                                type(e).__name__, e, fr.name, os.path.basename(fr.filename), fr.lineno), event=ctx.log.n)
             else:
                 raise
+        if entropy.used():
+            ctx.probes["randomness_drawn_outside_the_seams"] = ctx.probes.get("randomness_drawn_outside_the_seams", 0) + 1
         res.update(digest=ctx.log.digest(), nevents=ctx.log.n, counters=ctx.counters, probes=ctx.probes,
                    faults=ctx.faults, sigs=sorted(ctx.sigs), known=ctx.known,
                    nontrivial=bool(ctx.nontrivial), sim_seconds=ctx.sim_seconds)
